@@ -187,7 +187,9 @@ def zeros( shape, dtype=float, order = 'C'):
     elif isinstance(dtype, UTPM):
         D,P = dtype.data.shape[:2]
         tmp = numpy.zeros((D,P) + shape ,dtype = dtype.data.dtype)
-        tmp*= dtype.data.flatten()[0]
+        if tmp.dtype == object:
+            # zeros of the element type (for numeric dtypes 0 * inf would give nan)
+            tmp*= dtype.data.flatten()[0]
         return dtype.__class__(tmp)
 
     elif isinstance(dtype, Function):
